@@ -503,7 +503,11 @@ where
             let ping_out = self.zmtp_engine.on_tick(std::time::Instant::now());
             for action in ping_out.net_actions {
               if let NetAction::Send { data, .. } = action {
-                egress_buffer.push_priority(data);
+                if self.zmtp_engine.output_must_keep_order() {
+                  egress_buffer.push(data, 0);
+                } else {
+                  egress_buffer.push_priority(data);
+                }
               }
             }
             for action in ping_out.app_actions {
@@ -547,7 +551,11 @@ where
                 for action in engine_out.net_actions {
                   match action {
                     NetAction::Send { data, .. } => {
-                      egress_buffer.push_priority(data);
+                      if self.zmtp_engine.output_must_keep_order() {
+                        egress_buffer.push(data, 0);
+                      } else {
+                        egress_buffer.push_priority(data);
+                      }
                     }
                     NetAction::SetCork(enable) => {
                       #[cfg(target_os = "linux")]
